@@ -59,4 +59,13 @@ Definition ts_payload (pkt : bytes) : option bytes :=
   else None.
 Definition starts_with_start_code (pay : bytes) : Prop :=
   4 <= len pay /\ firstn 3 pay = [0; 0; 1].
+
+(* the same packet as a serialiser (2.4.3.2): four header bytes, the adaptation field (its length byte and
+   that many bytes) when adaptation_field_control bit 5 of byte 3 is set, then the payload *)
+Definition ser_af (af : option bytes) : bytes := match af with Some a => len a :: a | None => [] end.
+Definition ser_tspkt (b0 b1 b2 b3 : N) (af : option bytes) (payload : bytes) : bytes :=
+  [b0; b1; b2; b3] ++ ser_af af ++ payload.
+Definition wf_tspkt (b3 : N) (af : option bytes) (payload : bytes) : Prop :=
+  N.testbit b3 4 = true /\ N.testbit b3 5 = (match af with Some _ => true | None => false end) /\
+  length (ser_tspkt 71 0 0 b3 af payload) = 188%nat.
 End PesSpec.
